@@ -150,6 +150,23 @@ func main() {
 		if bad > 0 {
 			os.Exit(3)
 		}
+	case "genmany":
+		// print one generated scenario per line (one process, shared oracle caches): for inspecting generators
+		fs := flag.NewFlagSet("genmany", flag.ExitOnError)
+		prop := fs.String("prop", "C14", "")
+		seed := fs.Uint64("seed", 1, "")
+		n := fs.Int("n", 100, "")
+		tier := fs.String("tier", "quick", "")
+		mode := fs.String("mode", "", "only this mode")
+		fs.Parse(os.Args[2:])
+		for k := 0; k < *n; k++ {
+			sc := genFor(*prop, mix64(*seed, uint64(k)), *tier)
+			if sc == nil || (*mode != "" && sc.Mode != *mode) {
+				continue
+			}
+			b, _ := json.Marshal(sc)
+			fmt.Println(string(b))
+		}
 	case "gen":
 		fs := flag.NewFlagSet("gen", flag.ExitOnError)
 		prop := fs.String("prop", "C14", "")
